@@ -198,6 +198,11 @@ def plan(prop, tier):
         P += S("debug", "fault", n=80 if q else 2500, shards=2 if q else 4, timeout=5400)
         P += S("asan", "fault", n=50 if q else 1200, shards=4 if q else 6, timeout=5400, leaks_ok=True)
         P += S("miri", "fault", n=1 if q else 14, shards=4 if q else 12, timeout=3000, leaks_ok=True)
+        # the set wrappers have call paths of their own (replace, take, get_or_insert*, ...)
+        P += S("release", "setfault", n=2000 if q else 40000, shards=2 if q else 4, timeout=3000)
+        P += S("debug", "setfault", n=600 if q else 8000, shards=1 if q else 2, timeout=3000)
+        P += S("asan", "setfault", n=300 if q else 5000, shards=1 if q else 2, timeout=3000, leaks_ok=True)
+        P += S("miri", "setfault", n=1 if q else 6, shards=1 if q else 4, timeout=3000, leaks_ok=True)
     elif prop == "C08":
         P += S("release", "hist", n=5000 if q else 40000, shards=8, profile="iters")
         P += S("debug", "hist", n=400 if q else 5000, shards=2, profile="iters")
@@ -271,7 +276,7 @@ def plan(prop, tier):
         for sh in P:
             if "transcript" in sh:
                 continue
-            if sh["fl"] in ("release", "debug", "ext", "extdebug") and sh["args"][0] in ("hist", "sets", "meta", "clones", "serde", "plain", "limits", "iterstates", "dropbomb", "prefix", "par"):
+            if sh["fl"] in ("release", "debug", "ext", "extdebug") and sh["args"][0] in ("hist", "sets", "meta", "clones", "serde", "plain", "limits", "iterstates", "dropbomb", "prefix", "par", "setfault"):
                 a = sh["args"]
                 if "--n" in a:
                     i = a.index("--n")
